@@ -48,7 +48,8 @@ func (c *capConn) SetReadDeadline(time.Time) error        { return nil }
 func (c *capConn) SetWriteDeadline(time.Time) error       { return nil }
 
 var dhcpPaths = []string{"release", "decline", "expiry", "expiry-rediscover", "auth-fail", "shutdown",
-	"expiry-rerequest", "release-rerequest", "reboot-rediscover", "replace-cpe", "move-circuit"}
+	"expiry-rerequest", "release-rerequest", "reboot-rediscover", "replace-cpe", "move-circuit",
+	"release-odd", "decline-odd"}
 
 var dhcpPrefixes = map[string][]string{
 	"release":           {"acked", "renewed", "initreboot"},
@@ -61,8 +62,12 @@ var dhcpPrefixes = map[string][]string{
 	"expiry-rerequest":  {"acked", "renewed", "initreboot"},
 	"release-rerequest": {"acked", "renewed", "initreboot"},
 	"reboot-rediscover": {"acked", "renewed", "initreboot"},
-	"replace-cpe":       {"acked", "renewed", "initreboot"}, // relayed sessions only
-	"move-circuit":      {"acked", "renewed", "initreboot"}, // relayed sessions only
+	// odd-fields family: a RELEASE / DECLINE whose ciaddr, requested-address, server-id or arrival path is not what an
+	// orderly client of this session would send
+	"release-odd":  {"acked", "renewed", "initreboot"},
+	"decline-odd":  {"acked", "renewed", "initreboot"},
+	"replace-cpe":  {"acked", "renewed", "initreboot"}, // relayed sessions only
+	"move-circuit": {"acked", "renewed", "initreboot"}, // relayed sessions only
 }
 
 func dhcpPathValid(kind, path string) bool {
@@ -94,6 +99,9 @@ func dhcpCells(kind string) []cellSpec {
 			seconds := []string{"none", "seq:release", "seq:decline", "seq:expiry"}
 			if p == "shutdown" {
 				seconds = []string{"none"}
+			}
+			if p == "release-odd" || p == "decline-odd" {
+				seconds = []string{"none", "seq:release"}
 			}
 			for _, s := range seconds {
 				out = append(out, cellSpec{Kind: kind, Path: p, Prefix: pre, Second: s})
@@ -171,6 +179,18 @@ func genDHCP(s src, c cellSpec, base *params) *tcase {
 		tc.P.Hostname = fmt.Sprintf("cpe-%d", s.intn("hostname.n", 0, 999))
 	}
 	switch c.Path {
+	case "release-odd", "decline-odd":
+		addrs := []string{"correct", "zero", "other", "free", "outside"}
+		tc.P.OddCi = pick(s, "odd.ci", addrs)
+		tc.P.OddSid = pick(s, "odd.sid", []string{"correct", "absent", "other"})
+		tc.P.OddVia = pick(s, "odd.via", []string{"same", "same", "direct", "relay"})
+		if c.Path == "decline-odd" {
+			tc.P.OddReq = pick(s, "odd.req", addrs)
+			tc.P.OddCi = pick(s, "odd.ci2", []string{"zero", "zero", "correct", "other"})
+		}
+		if len(tc.P.BgMACs) == 0 {
+			tc.P.BgMACs = []hexb{genMAC(s, "bg0", 1)} // "another client's address" needs another client
+		}
 	case "expiry-rerequest":
 		tc.P.ReqShape = pick(s, "req.shape", []string{"renewing", "initreboot", "selecting"})
 	case "release-rerequest":
@@ -194,6 +214,7 @@ type dhcpRun struct {
 	gw   net.IP
 	xid  uint32
 	ip   net.IP // address of the session under test (offered or leased)
+	via  string // odd-fields family: overrides how the next message arrives ("direct" | "relay")
 	ip2  net.IP // rediscover family: the address of the ended session if the new OFFER names another one
 	bgIP []net.IP
 
@@ -232,7 +253,14 @@ func (x *dhcpRun) msg(typ dhcpv4.MessageType, mac net.HardwareAddr, cid, rid []b
 	var xid dhcpv4.TransactionID
 	xid[0], xid[1], xid[2], xid[3] = byte(x.xid>>24), byte(x.xid>>16), byte(x.xid>>8), byte(x.xid)
 	all := []dhcpv4.Modifier{dhcpv4.WithMessageType(typ), dhcpv4.WithHwAddr(mac), dhcpv4.WithTransactionID(xid)}
-	if x.tc.Kind == "dhcp-relay" {
+	relayed := x.tc.Kind == "dhcp-relay"
+	switch x.via {
+	case "direct":
+		relayed = false
+	case "relay":
+		relayed = true
+	}
+	if relayed {
 		all = append(all, dhcpv4.WithGatewayIP(net.IPv4(172, 30, 0, 1).To4()))
 		if ri := x.relayInfo(cid, rid); len(ri) > 0 {
 			all = append(all, dhcpv4.WithOption(dhcpv4.OptGeneric(dhcpv4.OptionRelayAgentInformation, ri)))
@@ -528,6 +556,159 @@ func (x *dhcpRun) rediscover(stage, cont string) {
 			x.res.fail("C16/dhcp/"+x.tc.Path+"/acked-despite-reject", "RADIUS rejected %s but the REQUEST for %s was acknowledged", x.mac(), ip)
 		}
 	}
+}
+
+func (x *dhcpRun) oddAddr(kind string, prePool dhcp.VerifPoolState) net.IP {
+	switch kind {
+	case "correct":
+		return x.ip
+	case "other":
+		return x.bgIP[0]
+	case "free":
+		st := x.pool.VerifState()
+		if len(st.Available) > 0 {
+			return net.ParseIP(st.Available[len(st.Available)-1]).To4()
+		}
+		return net.IPv4(192, 0, 2, 78).To4()
+	case "outside":
+		return net.IPv4(192, 0, 2, 77).To4()
+	}
+	return nil // zero: field left empty
+}
+
+// sendOdd sends the terminating RELEASE / DECLINE with the generated protocol fields.
+func (x *dhcpRun) sendOdd(typ dhcpv4.MessageType, prePool dhcp.VerifPoolState) {
+	p := &x.tc.P
+	var mods []dhcpv4.Modifier
+	if ci := x.oddAddr(p.OddCi, prePool); ci != nil {
+		mods = append(mods, dhcpv4.WithClientIP(ci))
+	}
+	if typ == dhcpv4.MessageTypeDecline {
+		if rq := x.oddAddr(p.OddReq, prePool); rq != nil {
+			mods = append(mods, dhcpv4.WithOption(dhcpv4.OptRequestedIPAddress(rq)))
+		}
+	}
+	switch p.OddSid {
+	case "correct":
+		mods = append(mods, dhcpv4.WithOption(dhcpv4.OptServerIdentifier(x.gw)))
+	case "other":
+		mods = append(mods, dhcpv4.WithOption(dhcpv4.OptServerIdentifier(net.IPv4(198, 51, 100, 1).To4())))
+	}
+	cid := x.curCid
+	if p.OddVia != "same" && p.OddVia != "" {
+		x.via = p.OddVia
+		if x.via == "relay" && len(cid) == 0 {
+			cid = []byte("odd-relay-port")
+		}
+	}
+	m, err := x.msg(typ, x.mac(), cid, p.RemoteID, mods...)
+	x.via = ""
+	if err != nil {
+		x.res.harness = err.Error()
+		return
+	}
+	before := len(x.pool.VerifState().Unavailable)
+	x.res.logf("  %s ciaddr=%s requested=%s server-id=%s via=%s", typ, p.OddCi, p.OddReq, p.OddSid, p.OddVia)
+	if r := x.send(m); r != nil {
+		x.res.logf("    (answered with %s)", r.MessageType())
+	}
+	if typ == dhcpv4.MessageTypeDecline && p.OddReq == "correct" && len(x.pool.VerifState().Unavailable) > before {
+		x.quarantined++
+	}
+}
+
+// estSnap is the state of the established session, for the "ignored => fully intact" half of the odd-fields oracle.
+type estSnap struct {
+	c     *census
+	pool  dhcp.VerifPoolState
+	recs  int
+	lease dhcp.Lease
+}
+
+func (x *dhcpRun) snapEstablished() (*estSnap, bool) {
+	c, err := x.w.census()
+	if err != nil {
+		x.res.harness = err.Error()
+		return nil, false
+	}
+	e := &estSnap{c: c, pool: x.pool.VerifState(), recs: len(x.rs.records())}
+	for _, l := range x.srv.VerifLeases() {
+		if l.Key == x.mac().String() {
+			e.lease = l.Lease
+			return e, true
+		}
+	}
+	x.res.harness = "established session has no lease"
+	return nil, false
+}
+
+// oddOracle: after a RELEASE / DECLINE with unusual fields EITHER the session is over and everything is released, OR
+// the message was ignored and the session is fully intact (a proper RELEASE then cleans up) - never a half state.
+func (x *dhcpRun) oddOracle(est *estSnap, pre *census, prePool dhcp.VerifPoolState) {
+	res, tc := x.res, x.tc
+	half := func(from int) {
+		for i := from; i < len(res.viol); i++ {
+			parts := strings.Split(res.viol[i].Sig, "/")
+			res.viol[i].Sig = "C16/dhcp/" + tc.Path + "/half-terminated/" + parts[len(parts)-1]
+		}
+	}
+	var cur *dhcp.Lease
+	for _, l := range x.srv.VerifLeases() {
+		if l.Key == x.mac().String() {
+			c := l.Lease
+			cur = &c
+		}
+	}
+	n0 := len(res.viol)
+	if cur == nil {
+		res.logf("    the lease is gone: the session must be over completely")
+		res.classes = append(res.classes, "odd:session-ended")
+		x.oracle(tc.Path, pre, prePool)
+		half(n0)
+		return
+	}
+	res.logf("    the lease is still there: the session must be fully intact")
+	res.classes = append(res.classes, "odd:message-ignored")
+	sig := func(r string) string { return "C16/dhcp/" + tc.Path + "/half-terminated/" + r }
+	if !cur.IP.Equal(est.lease.IP) || cur.SessionID != est.lease.SessionID {
+		res.fail(sig("lease"), "the lease changed although the session was not ended: %s/%s -> %s/%s", est.lease.IP, est.lease.SessionID, cur.IP, cur.SessionID)
+	}
+	now, err := x.w.census()
+	if err != nil {
+		res.harness = err.Error()
+		return
+	}
+	for _, n := range sessionMaps {
+		if !equalStrings(est.c.Maps[n], now.Maps[n]) {
+			res.fail(sig(mapResource[n]), "the session still has its lease but kernel map %s changed: %v -> %v", n, est.c.Maps[n], now.Maps[n])
+		}
+	}
+	if now.NATCount != est.c.NATCount || fmt.Sprint(now.NATSubs) != fmt.Sprint(est.c.NATSubs) {
+		res.fail(sig("nat"), "the session still has its lease but the NAT state changed: %d %v -> %d %v", est.c.NATCount, est.c.NATSubs, now.NATCount, now.NATSubs)
+	}
+	if now.QoSCount != est.c.QoSCount {
+		res.fail(sig("qos"), "the session still has its lease but the QoS subscriber count changed: %d -> %d", est.c.QoSCount, now.QoSCount)
+	}
+	st := x.pool.VerifState()
+	if st.Allocated[x.mac().String()] != est.pool.Allocated[x.mac().String()] || len(st.Available) != len(est.pool.Available) || len(st.Unavailable) != len(est.pool.Unavailable) {
+		res.fail(sig("pool"), "the session still has its lease but the pool changed: allocation %q -> %q, available %d -> %d, unavailable %d -> %d",
+			est.pool.Allocated[x.mac().String()], st.Allocated[x.mac().String()], len(est.pool.Available), len(st.Available), len(est.pool.Unavailable), len(st.Unavailable))
+	}
+	if recs := x.rs.records(); len(recs) != est.recs {
+		res.fail(sig("acct"), "the session still has its lease but accounting records were sent: %v", recs[est.recs:])
+	}
+	for i, m := range tc.P.BgMACs {
+		if st.Allocated[net.HardwareAddr(m).String()] != x.bgIP[i].String() {
+			res.fail(sig("foreign-pool"), "background client %d lost its allocation %s", i, x.bgIP[i])
+		}
+	}
+	if len(res.viol) > n0 || res.harness != "" {
+		return
+	}
+	// the orderly RELEASE the client sends next ends the session completely
+	res.logf("  RELEASE %s (orderly)", x.ip)
+	x.release(x.mac(), x.curCid, tc.P.RemoteID, x.ip)
+	x.oracle(tc.Path, pre, prePool)
 }
 
 // injectFault makes one removal of the coming termination fail (see dhcpFaultCells).
@@ -878,6 +1059,23 @@ func runDHCPInBubble(tc *tcase, rs *radServer, res *result) {
 		res.logf("  REQUEST %s with RADIUS rejecting -> ack=%v replied=%v", x.ip, ok, replied)
 		if ok {
 			res.fail("C16/"+tc.Kind+"/auth-fail/acked-despite-reject", "RADIUS rejected %s but the REQUEST for %s was acknowledged", x.mac(), x.ip)
+			return
+		}
+	} else if tc.Path == "release-odd" || tc.Path == "decline-odd" {
+		est, ok := x.snapEstablished()
+		if !ok {
+			return
+		}
+		typ := dhcpv4.MessageTypeRelease
+		if tc.Path == "decline-odd" {
+			typ = dhcpv4.MessageTypeDecline
+		}
+		x.sendOdd(typ, prePool)
+		if res.harness != "" {
+			return
+		}
+		x.oddOracle(est, pre, prePool)
+		if len(res.viol) > 0 || res.harness != "" {
 			return
 		}
 	} else {
